@@ -1,0 +1,63 @@
+//go:build verif
+
+// Machine-checked contracts for package hcldec (see /verif/DESIGN.md). This
+// file contains comments only; it is compiled only with the "verif" build tag
+// and changes nothing in the package.
+
+package hcldec
+
+// verif:unit U17 props=C08
+
+// Interface-level contract (assumed for every Spec implementation).
+// implied(spec): the type a specification implies (what its impliedType method computes).
+// verif:specfunc implied(s Spec) cty.Type
+// verif:func (Spec).impliedType
+//@ trusted
+//@ pure
+//@ ensures ret == implied(self)
+
+// verif:func ImpliedType
+//@ trusted
+//@ pure
+//@ ensures ret == implied(spec)
+
+// Assumed frames: decoding a child body, collecting its labels and attaching body marks do not
+// write specification objects or the content being decoded (they do write splat evaluation
+// state, which nothing in this unit reads).
+// verif:func decode
+//@ trusted
+//@ assigns nothing
+// verif:func labelsForBlock
+//@ trusted
+//@ assigns nothing
+// verif:func prepareBodyVal
+//@ trusted
+//@ assigns nothing
+
+// conformsTo(v, t): v's type is the implied type t, up to removal of optional-attribute markers.
+// verif:pred conformsTo(v cty.Value, t cty.Type) = typeOf(v) == t || typeOf(v) == woad(t)
+
+// The implied type of a block map nests one map type per label name.
+// verif:func (*BlockMapSpec).impliedType
+//@ requires s.Nested != nil
+//@ pure
+//@ ensures ret == mapN(implied(s.Nested), len(s.LabelNames))
+//@ loop 1 invariant rangeindex + 1 <= len(s.LabelNames) && ret == mapN(implied(s.Nested), rangeindex + 1)
+
+// Decoding: when no block is present the result is an empty map of the implied type, and an
+// unknown result has the implied type (C08: the value's type always conforms to ImpliedType).
+// verif:func (*BlockMapSpec).decode
+//@ nosafety
+//@ requires s.Nested != nil && content != nil
+//@ ensures empty: len(content.Blocks) == 0 ==> conformsTo(ret0, mapN(implied(s.Nested), len(s.LabelNames)))
+//@ ensures unknown: !isKnownVal(ret0) ==> conformsTo(ret0, mapN(implied(s.Nested), len(s.LabelNames)))
+//@ loop 1 invariant rangeindex + 1 <= len(content.Blocks) && (rangeindex == 0 - 1 ==> (forall k string :: !has(elems, k)))
+
+// verif:func (UnknownBody).Unknown
+//@ trusted
+//@ pure
+
+// The recursive map builder returns a known map value.
+// verif:func (*BlockMapSpec).decode$1
+//@ nosafety
+//@ ensures isKnownVal(ret)
